@@ -154,7 +154,8 @@ static void str_case(long k, fcase *c) {
 
 /* directives the lattices above do not contain: %ls (wide string through wcstombs), %lc, %b / %#b, %p */
 static const wchar_t *WSTRS[] = {L"", L"a", L"hello", L"0123456789abcdefghijklmnopqrstuvwxyzABCD", L"grüß", L"€€€€€€€"};
-static long n_spc_cases(void) { return 6L * 5 * 3 * 2 + 4 * 3 * 2 * 2 + 2 * 15 * 3 * 3 + 4 + 6 + 7; }
+#define N_HEXF (2L * 2 * 6 * 4 * 3 * 3)
+static long n_spc_cases(void) { return 6L * 5 * 3 * 2 + 4 * 3 * 2 * 2 + 2 * 15 * 3 * 3 + 4 + 6 + 7 + N_HEXF; }
 static void spc_case(long k, fcase *c) {
     static const int SW[] = {-1, 3, 12}; static const int SP[] = {-1, 0, 1, 3, 70}; static const char *SF[] = {"", "-"};
     memset(c, 0, sizeof *c); c->strarg = -1; c->one_dir = 1;
@@ -195,6 +196,15 @@ static void spc_case(long k, fcase *c) {
         return;
     }
     k -= 2 * 15 * 3 * 3;
+    if (k >= 17) {  /* %a / %A (hexadecimal floating point), double and long double: the C library's text exactly */
+        static const double HV[] = {1.0, -0.5, 0.1, 1e300, 0.0, 123456.789}; static const int HW[] = {-1, 12, 70, -2}; static const int HP[] = {-1, 0, 3}; static const char *HF[] = {"", "-", "+0"};
+        k -= 17; int ci = (int)(k % 2); k /= 2; int L = (int)(k % 2); k /= 2; int vi = (int)(k % 6); k /= 6; int wi = (int)(k % 4); k /= 4; int pi = (int)(k % 3); k /= 3; int fi = (int)(k % 3);
+        put_dir(c->fmt, sizeof c->fmt, HF[fi], HW[wi], HP[pi], L ? "L" : "", ci ? 'A' : 'a', c, 30, 3);
+        if (L) add_x(c, (long double)HV[vi]); else add_f(c, HV[vi]);
+        snprintf(c->cls, sizeof c->cls, "%%%s%c|flags='%s'|%s|%s|%s", L ? "L" : "", ci ? 'A' : 'a', HF[fi], wcls(HW[wi]), pcls(HP[pi]), HV[vi] == 0 ? "zero" : fabs(HV[vi]) > 1e9 ? "abs>1e9" : "normal");
+        snprintf(c->rc, sizeof c->rc, "hexfloat|%%%s%c|%s", L ? "L" : "", ci ? 'A' : 'a', wcls(HW[wi]));
+        return;
+    }
     if (k >= 10) {  /* directives the standard leaves undefined or that cannot succeed: the library may fail, but then as any failed call (terminated, empty, reported once) */
         static const char *UF[] = {"%Ld", "%Li", "%Lu", "x%Lxy", "%2147483615d", "a%2147483640sb", "%.2147483640d"}; k -= 10;
         snprintf(c->fmt, sizeof c->fmt, "%s", UF[k]); if (k == 5) add_g(c, (long long)(intptr_t)"s"); else add_g(c, 5);
